@@ -101,7 +101,12 @@ def kind_name(ty):
         return "Ref"
     if t[0] == "tuple":
         return "Tup"
-    return str(sort_of(t))
+    n = str(sort_of(t))
+    KIND_SORTS.setdefault(n, sort_of(t))
+    return n
+
+
+KIND_SORTS = {}
 
 
 def strip_opt_(ty):
@@ -315,6 +320,9 @@ def field_type(cls, field):
     raise Unsupported(f"no sort hint for {cls}.{field}")
 
 
+WF_FACTS = {}      # per task: entry-heap allocation facts (see State.assume_alloc); keeps the terms alive, so ids are stable
+
+
 # ----------------------------------------------------------------------------- state
 class State:
     """env: local name -> V ; heap: key -> z3 array (absent key = initial, canonical constant) ; pc: path condition ;
@@ -445,6 +453,13 @@ class State:
             if v.ty[0] == "opt" and v.none is not None:
                 c = z3.Or(v.none, c)
             self.assume(c)
+            if self.quiet and source is not None and z3.is_const(source) and source.decl().name().startswith("H0_"):
+                # an instance of the closed-heap axiom about the ENTRY heap, found while a specification was being evaluated on a scratch
+                # copy: it does not depend on the path, so it is recorded for the whole task (added to every obligation's hypotheses);
+                # without it the frame condition `allocated before the call => unchanged` would not apply to the objects a contract names
+                k = c.get_id()
+                if k not in WF_FACTS:
+                    WF_FACTS[k] = c
 
     # ---- lists (views: len, elem, and for duplicate-free reference lists mem / heapok)
     def len_key(self, ety=None):
